@@ -299,6 +299,32 @@ class Facts:
             return ('ext', b[1] + '.' + attr)
         return ('unbound', '%s.%s' % (b[1], attr))
 
+    def host_only_functions(self) -> set:
+        """Module-level functions of the package that no code of the package refers to (no call, no reference by name or as an
+        attribute; imports and __all__ do not count): entry points for the host alone - configuration API such as
+        `set_error_hooks(...)`.  What they change is configuration chosen by the host, not state left behind by a call."""
+        cache = self.__dict__.get('_host_only')
+        if cache is not None:
+            return cache
+        used = set()
+        for m in self.modules.values():
+            if '.ply' in m.name:
+                continue
+            for n in ast.walk(m.tree):
+                if isinstance(n, ast.Name) and isinstance(n.ctx, ast.Load):
+                    used.add(n.id)
+                elif isinstance(n, ast.Attribute):
+                    used.add(n.attr)
+        out = set()
+        for q, fi in self.functions.items():
+            if '.ply' in fi.module.name or fi.cls or not isinstance(fi.node, ast.FunctionDef):
+                continue
+            nm = fi.node.name
+            if q == fi.module.name + '.' + nm and nm not in used and not nm.startswith(('t_', 'p_')) and not fi.node.decorator_list:
+                out.add(q)
+        self.__dict__['_host_only'] = out
+        return out
+
     # ---------------------------------------------------------------- classes
     def mro(self, qual: str) -> List[str]:
         out, todo = [], [qual]
